@@ -206,11 +206,14 @@ Definition client_msgs (v : N) (name : string) (e : env) : list tmsg :=
 (** ---- the codec's rewriting ---- *)
 Definition perm_mask (x : val) : val := match x with VN n => VN (N.land n p9_permissionsMask) | v => v end.
 
+Definition mask_setattr (x : val) : val :=
+  match x with VR (p :: r) => VR (N.land p p9_permissionsMask :: r) | v => v end.
+
 Definition wire_field (t : string) (f : string * val) : string * val :=
   let '(k, x) := f in
   if (k =? "Permissions") then (k, perm_mask x)
   else if (t =? "tsetattr") && (k =? "SetAttr") then
-    (k, match x with VR (p :: r) => VR (N.land p p9_permissionsMask :: r) | v => v end)
+    (k, mask_setattr x)
   else (k, x).
 
 Definition wire (m : tmsg) : tmsg := (fst m, map (wire_field (fst m)) (snd m)).
@@ -297,7 +300,7 @@ Definition expected (v : N) (name : string) (e : env) : list bcall :=
   else if name =? "Readlink" then [mkbc "Readlink" self []]
   else if name =? "GetAttr" then [mkbc "GetAttr" self [p "req"]]
   else if name =? "SetAttr" then
-    [mkbc "SetAttr" self [p "valid"; match p "attr" with VR (x :: r) => VR (N.land x p9_permissionsMask :: r) | a => a end]]
+    [mkbc "SetAttr" self [p "valid"; mask_setattr (p "attr")]]
   else if name =? "StatFS" then [mkbc "StatFS" self []]
   else if name =? "FSync" then [mkbc "FSync" self []]
   else if name =? "Lock" then
